@@ -62,6 +62,7 @@ OptE(e) ==
     [] e.k = "not" -> [e EXCEPT !.e = OptE(e.e)]                      \* not folded: the run-time operator yields a non-const temporary
     [] e.k = "neg" -> (LET x == OptE(e.e) IN IF x.k = "int" THEN IntLit(0 - x.v) ELSE [e EXCEPT !.e = x])
     [] e.k = "tern" -> [e EXCEPT !.c = OptE(e.c), !.t = OptE(e.t), !.f = OptE(e.f)]
+    [] e.k = "range" -> [e EXCEPT !.lo = OptE(e.lo), !.hi = OptE(e.hi)]
     [] e.k = "interp" -> e                          \* the text of an interpolation is parsed when the literal is, by the same parser: optimized alike; the model leaves it
     [] e.k = "call" -> [e EXCEPT !.a = OptArgs(e.a, 1)]
     [] e.k = "lambda" -> [e EXCEPT !.b = FunBody(e.b)]
